@@ -1352,10 +1352,25 @@ def m_log(eng, x):
     return z3.Real(eng.fresh('log'))
 
 
+def _quarter_turns(eng, x):
+    """k if x is syntactically k * pi/2 for an integer k (x a term over the constant pi), else None."""
+    if not is_z3(x):
+        return None
+    pi = z3.Real('pi!const')
+    for k in range(-8, 9):
+        d = z3.simplify(x - k * pi / 2)
+        if (z3.is_rational_value(d) or z3.is_int_value(d)) and d.numerator_as_long() == 0:
+            return k
+    return None
+
+
 def _trig(name):
     def f(eng, x):
         if isinstance(x, (int, Fraction)) and x == 0:
             return Fraction(1 if name == 'cos' else 0)
+        k = _quarter_turns(eng, x)
+        if k is not None:           # exact values at multiples of a quarter turn
+            return Fraction([1, 0, -1, 0][k % 4] if name == 'cos' else [0, 1, 0, -1][k % 4])
         eng.assumptions_used.add('sin/cos of a non-zero angle are uninterpreted reals in [-1, 1]')
         r = z3.Real(eng.fresh(name))
         eng.assume(z3.And(r >= -1, r <= 1))
@@ -1398,6 +1413,9 @@ def m_asin(eng, x):
 def m_degrees(eng, x):
     if isinstance(x, (int, Fraction)) and x == 0:
         return Fraction(0)
+    k = _quarter_turns(eng, x)
+    if k is not None:
+        return Fraction(90 * k)
     return concretize(to_real(x) * 180 / pi_term(eng))
 
 
@@ -1410,6 +1428,8 @@ def np_identity(eng, n, dtype=None):
 def m_radians(eng, x):
     if isinstance(x, (int, Fraction)) and x == 0:
         return Fraction(0)
+    if isinstance(x, (int, Fraction)) and Fraction(x) % 90 == 0:
+        return concretize(z3.simplify(pi_term(eng) * z3.RealVal(str(Fraction(x) / 180))))      # a multiple of a quarter turn: k * pi / 2
     return z3.Real(eng.fresh('radians'))
 
 
